@@ -48,6 +48,9 @@ CHECKS = {
  "C12": ("exploration", "bounded-exhaustive enumeration of (type, size, placement, label, previous occupant) configurations, each created through disk.CreateFilesystem and re-detected on a fresh disk.Disk",
          "Cross product of the six filesystem types, sizes around every FAT cluster-count threshold as the Create tables produce them (sector-by-sector around 4085 clusters, 2 KiB / 4 KiB steps around 65525 and the FAT12 maximum), whole disk / GPT partition 1 / GPT partition 3 / MBR partition 1, three labels, and the range previously holding each other filesystem type or bytes that look like FAT directory slots; plus blank ranges. The fresh disk must report the table type, return the filesystem as its own type with its label, the probe file and nothing else.",
          "ISO9660 is created with a 2048-byte and squashfs with a 4096-byte logical block size, as the library requires", "DESIGN.md §3 C12"),
+ "C16": ("exploration", "bounded-exhaustive enumeration of source trees x (source kind, destination kind) pairs for CopyFileSystem, and of every single-point mutation x argument order for CompareFS",
+         "Copy: every tree of the grammar (<= 4 nodes, sizes around 2048, excluded names at the root and nested, files around the 32 KiB compare chunk) from {MapFS, os directory, fat32, ext4, iso9660, squashfs} into {fat12, fat16, fat32, ext4}; the destination is walked independently and compared with the source's own view minus the excluded names, CompareFS on the faithful copy must be nil in both orders, and a 64 MiB+1234-byte file from a synthetic sparse source (last bytes delivered together with io.EOF) goes through the streaming branch. Compare: for every tree, every single-point mutation (per file: flip first / last / byte 32767 / byte 32768, drop the last byte, append a byte, remove, turn into a directory; per directory: add a file, add a directory, remove, turn into a file) must make CompareFS return an error in both argument orders; identical trees must compare equal.",
+         "symlinks and special files are outside the statement", "DESIGN.md §3 C16"),
  "C02": ("exploration", "bounded-exhaustive enumeration of table inputs executed on the real Write/Read + independent on-disk parser",
          "Every table of a spelled-out finite cross product (entries, indices, spellings, geometries, names, attributes, types, disk sizes, sector sizes, PMBR, prior content) is written by the real code and compared via gpt.Read/mbr.Read, partition.Read, Disk.GetPartition and an independent UEFI-spec parser; exhaustive over that domain, says nothing outside it.",
          "memdev in-memory device; gptck (independent parser written from the UEFI spec) defines on-disk validity", "DESIGN.md §3 C02"),
